@@ -531,9 +531,9 @@ func (st *pstate) checkStore(fr *frame, instr *ssa.Store, addr *value) {
 			st.report("frozen", "frozen:"+label, fr.fn.String(), "store into frozen object "+label+" at "+fr.i.prog.Fset.Position(instr.Pos()).String(), true)
 		}
 	}
-	if g, ok := instr.Addr.(*ssa.Global); ok && st.w.warmDone {
-		if !strings.HasPrefix(fr.fn.Name(), "init") && !isHarnessFn(fr.fn) && g.Pkg != nil && strings.HasPrefix(g.Pkg.Pkg.Path(), st.ex.Cfg.RepoPrefix) && st.ex.Cfg.RepoPrefix != "" {
-			st.report("global-store", "global-store:"+g.String(), fr.fn.String(), "store to package-level variable "+g.String(), true)
+	if name, ok := st.w.globalCells[addr]; ok && st.w.warmDone {
+		if !strings.HasPrefix(fr.fn.Name(), "init") && !isHarnessFn(fr.fn) {
+			st.report("global-store", "global-store:"+name, fr.fn.String(), "store into package-level variable "+name, true)
 		}
 	}
 }
